@@ -4,6 +4,7 @@ package redis
 
 import (
 	"fmt"
+	"strings"
 
 	"github.com/samaritan-proxy/samaritan/verifrt/sched"
 	"github.com/samaritan-proxy/samaritan/verifrt/sim/cluster"
@@ -183,5 +184,91 @@ func c07coldStartBody() {
 func init() {
 	sched.Register(&sched.Scenario{Name: "C07/cold-start", Setup: func(tier string) (sched.Config, func()) {
 		return sched.Config{Bounds: sched.Bounds{}, Iterative: true, MaxSteps: 400000}, c07coldStartBody
+	}})
+}
+
+// ---------------------------------------------------------------------------
+// C04 (H) a node reports the cluster down for a moment (failover in progress) while a client pipelines commands
+// that do not commute: what the client was told must be what happened, in the order it asked.
+//
+// alphabet  pipelines of 2-3 commands on one key (SET v1 / SET v2 / INCR-like APPEND / GET) ; the k-th command of
+//           the pipeline is refused with -CLUSTERDOWN by the node (k = 1..len), not executed
+// oracle    every command gets one reply in order; a refused command is answered with an error or - if the proxy
+//           chooses to repeat it - must take effect at its place in the order: afterwards the key holds what a
+//           single server would hold after executing exactly the acknowledged commands in request order
+// ---------------------------------------------------------------------------
+
+func c04clusterDownPipelineBody() {
+	vrand.Fair()
+	cl := cluster.New(2, 0, 2)
+	s := vfStartStack(cl, vfSvcConfig(0, nil, 0))
+	c := s.NewClient("c0")
+	k := cl.KeyInGroup("k", 0, 0)
+	m0 := cl.Masters()[0]
+	pipelines := [][][]string{
+		{{"SET", k, "1"}, {"SET", k, "2"}},
+		{{"SET", k, "1"}, {"APPEND", k, "x"}},
+		{{"SET", k, "1"}, {"SET", k, "2"}, {"GET", k}},
+		{{"APPEND", k, "a"}, {"APPEND", k, "b"}, {"APPEND", k, "c"}},
+	}
+	pl := pipelines[sched.Choose(sched.ClsInput, len(pipelines), "pipeline")]
+	at := sched.Choose(sched.ClsInput, len(pl), "refused command")
+	c.Do("SET", k, "0")
+	refExec(s.ref, []string{"SET", k, "0"})
+	sched.WaitQuiescent()
+	// the node refuses the at-th command of the pipeline (counting commands of that name)
+	name := strings.ToLower(pl[at][0])
+	nth := 0
+	for i := 0; i < at; i++ {
+		if strings.ToLower(pl[i][0]) == name {
+			nth++
+		}
+	}
+	var raw []byte
+	for _, args := range pl {
+		raw = append(raw, resp.Encode(resp.Cmd(args...))...)
+	}
+	if nth == 0 {
+		m0.RefuseOnce = map[string][]byte{name: []byte("-CLUSTERDOWN The cluster is down\r\n")}
+	}
+	c.Send(raw)
+	sched.WaitQuiescent()
+	if nth > 0 {
+		// (only the first command of a name can be refused with this model; other positions are skipped)
+		sched.SetOutcome("skipped")
+		return
+	}
+	rs, _ := c.Pending()
+	if len(rs) != len(pl) {
+		sched.Fail("not-one-reply-per-request / pipeline with a refused command", fmt.Sprintf("%v: %d replies", pl, len(rs)))
+		return
+	}
+	for i, args := range pl {
+		if rs[i].Kind == '-' {
+			continue // refused: not executed, as far as the client knows
+		}
+		want := refExec(s.ref, args)
+		if !resp.Equal(rs[i], want) {
+			sched.Fail("reply-differs-from-single-server / pipeline with a command refused by CLUSTERDOWN", fmt.Sprintf("%v with command %d refused: reply %d is %s, executing the acknowledged commands in order gives %s", pl, at, i, rs[i], want))
+			return
+		}
+	}
+	sched.WaitQuiescent()
+	s.RefreshRound()
+	got, err := c.Do("GET", k)
+	want := refExec(s.ref, []string{"GET", k})
+	if err != nil || !resp.Equal(got, want) {
+		sched.Fail("acknowledged-write-lost-or-reordered / pipeline with a command refused by CLUSTERDOWN", fmt.Sprintf("%v with command %d refused (replies %v): the key holds %s, executing the acknowledged commands in request order gives %s", pl, at, rs, got, want))
+	}
+	sched.SetOutcome(fmt.Sprintf("%d/%d", len(pl), at))
+}
+
+func init() {
+	sched.Register(&sched.Scenario{Name: "C04/clusterdown-pipeline", Setup: func(tier string) (sched.Config, func()) {
+		b := sched.Bounds{}
+		if tier == "thorough" {
+			b = sched.Bounds{P: 1, F: 1}
+		}
+		return sched.Config{Bounds: b, Iterative: true, MaxSteps: 400000}, c04clusterDownPipelineBody
 	}})
 }
